@@ -19,6 +19,12 @@ CLASS_SCENARIOS = {"queue": ["queue", "generator"], "limited_queue": ["queue"], 
                    "scheduler": ["scheduler", "scheduler_multi_start", "scheduler_pool_start"], "publisher::queue": ["publisher", "publisher_items"]}
 ALL_SCENARIOS = ["future_poll", "future_has_value", "scheduler_pool_start", "storage_sizes", "publisher_items", "future_await", "future_compete", "mutex", "mutex_window", "queue", "pool", "pool_double_stop", "scheduler", "scheduler_multi_start", "publisher",
                  "storage", "generator", "signal", "shared"]
+# promise / future / awaiter-chain protocol on the happens-before machine (ChainClock.lean): obligations over the regenerated tables
+CHAIN_TABLE_OBLIGATIONS = ["c03_chain_orders_current", "c03_chain_walk_accesses", "c03_chain_subscribe_accesses", "c03_chain_set_before_resolve"]
+CHAIN_SCENARIOS = ["future_poll", "future_has_value", "future_await", "future_compete", "shared"]
+# coroutine mutex protocol as a whole on the happens-before machine (MutexClock.lean): obligations over the regenerated atomic-site table
+MUTEX_TABLE_OBLIGATIONS = ["c03_mutex_orders_current", "c03_mutex_protocol_race_free", "c03_mutex_handoff_ordered"]
+MUTEX_SCENARIOS = ["mutex", "mutex_window"]
 
 
 def failing_lock_programs():
@@ -52,7 +58,22 @@ def run_tsan(exe, scenario, iters, timeout=240):
         err = (e.stderr or b"").decode(errors="replace") if isinstance(e.stderr, bytes) else (e.stderr or "")
         rc = -9
     reports = re.findall(r"WARNING: ThreadSanitizer: data race.*?SUMMARY: ThreadSanitizer: [^\n]*", err, re.S)
+    # a report counts against the library only when one of the two racing accesses is made by library code: a race between two
+    # accesses of the scenario program itself (both innermost frames in harness/tsan_scenarios.cpp) is a defect of the harness
+    reports = [r for r in reports if _touches_library(r)]
     return rc, reports
+
+
+def _touches_library(rep):
+    """does one of the two conflicting accesses of a ThreadSanitizer report have a cocls frame (src/cocls/*.h or a cocls:: function) among its
+    first frames? (frames `#0..#3` of the access stacks: the inlined library code sits directly above the scenario's lambda)"""
+    stacks = re.split(r"\n\s*\n", rep)
+    for st in stacks[:2]:
+        frames = re.findall(r"^\s*#(\d+) ([^\n]*)$", st, re.M)
+        for n, txt in frames:
+            if int(n) <= 3 and ("/src/cocls/" in txt or "cocls::" in txt):
+                return True
+    return False
 
 
 def report_functions(rep):
@@ -90,7 +111,7 @@ C03_DEFS_SNIPPET = ""
 
 class C03(Spec):
     pid = "C03"
-    lean_modules = ["CoclsModel.Props.C03"]
+    lean_modules = ["CoclsModel.Props.C03", "CoclsModel.Props.C03b"]
     extract = True
     design_ref = "DESIGN.md §5 C03"
     technique = "Lean 4 proof on a happens-before machine instantiated with memory orders / lock regions extracted from the source by a clang-AST translator"
@@ -120,7 +141,8 @@ class C03(Spec):
                 "c03_build_queue_acquires_before_queue", "c03_lock_programs_disciplined", "c03_lock_programs_cover",
                 "c03_lock_programs_classes", "c03_set_constructs_before_state",
                 "c03_awaiter_no_touch_after_publish", "c03_sites_accounted", "c03_rmw_shapes", "c03_tracer_ref_before_publish", "c03_mtsafe_dealloc_no_write_after_release",
-                "c03_mtsafe_alloc_writes_after_acquire", "c03_start_in_sets_pool_before_handover", "c03_hint_loads_gate_nothing", "c03_guarded_data_does_not_escape"]
+                "c03_mtsafe_alloc_writes_after_acquire", "c03_start_in_sets_pool_before_handover", "c03_hint_loads_gate_nothing", "c03_guarded_data_does_not_escape",
+                "c03_trylock_orders_current", "c03_genblock_orders_current", "c03_elide_hint_orders_current", "c03_async_awaiter_orders_current", "c03_small_sites_accounted"] + CHAIN_TABLE_OBLIGATIONS + MUTEX_TABLE_OBLIGATIONS
 
     def prebuild(self):
         tsan_binary()
@@ -219,12 +241,33 @@ class C03(Spec):
                 scenarios += CLASS_SCENARIOS.get(cls, [])
         if "c03_hint_loads_gate_nothing" in broken:
             scenarios += ["future_has_value", "future_poll", "future_await", "shared"]
+        if "c03_chain_orders_current" in broken:
+            # the orders of the promise / future / awaiter-chain protocol as a whole (ChainClock.lean) are no longer sufficient
+            scenarios += CHAIN_SCENARIOS
+        if broken & {"c03_chain_walk_accesses", "c03_chain_subscribe_accesses", "c03_chain_set_before_resolve"}:
+            # a plain access the whole-protocol model assumes moved: interleaving-level search first, then the TSan scenarios
+            try:
+                found += self._baton_search("c02")
+            except Exception as e:
+                core.log("baton search c02: %r" % (e,))
+            scenarios += CHAIN_SCENARIOS
         if "c03_start_in_sets_pool_before_handover" in broken:
             scenarios += ["scheduler_pool_start", "scheduler"]
         if broken & {"c03_mtsafe_dealloc_no_write_after_release", "c03_mtsafe_alloc_writes_after_acquire"}:
             scenarios += ["storage_sizes", "storage"]
+        if broken & {"c03_trylock_orders_current", "c03_small_sites_accounted"}:
+            scenarios += ["storage", "storage_sizes"]
+        if broken & {"c03_genblock_orders_current", "c03_small_sites_accounted"}:
+            scenarios += ["generator"]
+        if "c03_elide_hint_orders_current" in broken:
+            scenarios += ["scheduler_multi_start", "scheduler"]
+        if "c03_async_awaiter_orders_current" in broken:
+            scenarios += ["future_await"]
         if "c03_build_queue_acquires_before_queue" in broken:
             scenarios += ["mutex_window", "mutex"]
+        if broken & set(MUTEX_TABLE_OBLIGATIONS):
+            # the orders of the coroutine mutex protocol as a whole (MutexClock.lean) are no longer sufficient
+            scenarios += MUTEX_SCENARIOS
         if "c03_tracer_ref_before_publish" in broken:
             try:
                 found += self._baton_search("c17")
